@@ -46,6 +46,20 @@ def check(tier, seed):
                 res.violation('C03: an over-length header hid the frame that starts after its 6 bytes',
                               {'property': 'C03', 'input': desc, 'expected': exp, 'implementation_says': impl}, 'c03-over|' + C.hexs(s)[:80])
             cases.append(Case('ubx-parser-overlength', G.ubx_cmd([(6, 1)], ops), impl, desc, kind='overlength'))
+        # exactly one error marker per frame-shaped sequence with a mismatching checksum, never a data packet (grammar streams, unique answer)
+        for _ in range(60 if tier == 'quick' else 2500):
+            segs, s, kinds = G.rand_segments(rng, rng.choice([1, 2, 4]))
+            if not any(sg[0] == 'B' for sg in segs):
+                continue
+            filt = G.rand_filter(rng, segs)
+            q_exp, n_exp = G.expected_c02(segs, filt)
+            impl = G.impl_ubx(filt, [('P', s)])
+            toks = impl.split('q=[')[1].split(']')[0].split() if not impl.startswith('!') else ['!']
+            desc = {'stream_hex': C.hexs(s), 'filter': filt, 'kind': 'marker-per-bad-frame', 'chunking': 'whole'}
+            if toks != q_exp:
+                res.violation('C03: a checksum-failed frame did not yield exactly one error marker (or was delivered as data)',
+                              {'property': 'C03', 'input': desc, 'expected': ' '.join(q_exp)[:1500], 'implementation_says': impl[:1500]}, 'c03-marker|' + C.hexs(s)[:80])
+            cases.append(Case('ubx-parser-markers', G.ubx_cmd(filt, [('P', s)]), impl, desc, kind='markers'))
         # filter membership must be exact: valid frames whose class/id is NEAR the filter's (shifted, swapped, neighbour ...)
         for c, i in [(0x0a, 4), (5, 1), (5, 0), (6, 0x8b), (0x13, 0x60), (1, 3)] + [(rng.randrange(1, 64), rng.randrange(2, 250)) for _ in range(6 if tier == 'quick' else 200)]:
             near = G.near_cids(c, i)
